@@ -680,8 +680,8 @@ pub fn stress_text(w: &RWorld, fam: Fam, k: u64) -> (String, &'static str) {
         92 => (outer(format!("pk({}{})", w.xpub[0], "/0".repeat(100_000))), "path-1e5"),
         93 => (outer(format!("pk([{}{}]{})", w.fp[0], "/0'".repeat(100_000), w.xpub[0])), "origin-path-1e5"),
         94 => {
-            let alts: Vec<String> = (0..1_000).map(|i| i.to_string()).collect();
-            (outer(format!("pk({}/<{}>/*)", w.xpub[0], alts.join(";"))), "multipath-1e3")
+            let alts: Vec<String> = (0..200).map(|i| i.to_string()).collect();
+            (outer(format!("pk({}/<{}>/*)", w.xpub[0], alts.join(";"))), "multipath-200")
         }
         95 => (outer(format!("pk({}/<0;1>/*)", w.xpub[0])), "multipath-valid"),
         96 => (outer(format!("multi(2,{}/<0;1>/*,{}/<0;1;2>/*)", w.xpub[0], w.xpub[1])), "multipath-unequal"),
